@@ -6,6 +6,8 @@ import Frp.Model.Dispatcher
 import Frp.Props.C17Dispatch
 import Frp.Model.Lane
 import Frp.Props.C17Lane
+import Frp.Props.C17Batch
+import Frp.Model.IPText
 /-
   Driver engine "codec": replays the harness trace (real msg.WriteMsg / ReadMsg / ReadMsgInto and
   the first-message handling of a live frps) on the Frame model and evaluates the C17 predicate
@@ -142,45 +144,31 @@ def words (s : String) : List String := (s.splitOn " ").filter (· ≠ "")
 
 /-! ### session level: `disp` (the real msg.Dispatcher over a pipe) and `sess` (a live control connection) -/
 
-open Dispatcher in
-/-- net.IP.UnmarshalText (net.ParseIP → netip.ParseAddr): the first of `.` `:` `%` decides the family;
-    IPv4 = exactly four decimal fields 0…255 without leading zeros; "" = nil IP.  IPv6 texts are not
-    judged here (`ipDecided` = false ⇒ the op is skipped). -/
-def ipFirstSpecial (s : Str) : Option Nat := s.find? (fun b => b == 46 || b == 58 || b == 37)
+/-- `net.IP.UnmarshalText` (net.ParseIP → netip.ParseAddr), IPv4 and IPv6: Model/IPText.lean.  Since round 3 the
+    whole JSON-tree domain is judged by the model: member names fold as encoding/json folds them (incl. the two
+    non-ASCII runes that fold to ASCII letters), `-0` is an integer literal for signed fields only, IPv6 address
+    texts are parsed and printed canonically. -/
+def canonV {α : Type} (sub : α → α) : MsgObj.ValF α → MsgObj.ValF α
+  | .udp (some a) => .udp (some { a with ip := IPText.canon a.ip })
+  | .sub a => .sub (sub a)
+  | .subs (some l) => .subs (some (l.map sub))
+  | v => v
 
-def quadField (f : Str) : Bool :=
-  decide (1 ≤ f.length) && decide (f.length ≤ 3) && f.all (fun b => decide (48 ≤ b) && decide (b ≤ 57))
-    && (decide (f.length = 1) || f.headD 0 != 48)
-    && decide (f.foldl (fun a b => a * 10 + (b - 48)) 0 ≤ 255)
-
-def ipOkSimple (s : Str) : Bool :=
-  s.isEmpty || (ipFirstSpecial s == some 46 && (let fs := Str.splitOn 46 s; decide (fs.length = 4) && fs.all quadField))
-
-def ipDecided (s : Str) : Bool := ipFirstSpecial s != some 58
-
-def lowerStr (s : Str) : Str := s.map (fun b => if 65 ≤ b ∧ b ≤ 90 then b + 32 else b)
-
-/-- is the tree inside the domain in which the model's verdict is claimed: member names ASCII (Unicode
-    case folding is not modelled), no `-0` (ParseInt and ParseUint disagree on it), IP texts decided -/
-partial def treeInDomain : MsgObj.J → Bool
-  | .real t => t != [45, 48]
-  | .arr l => l.all treeInDomain
-  | .obj ms => ms.all (fun kv => kv.1.all (· < 128) && treeInDomain kv.2 &&
-      (match kv.2 with
-       | .str v => lowerStr kv.1 != [105, 112] || ipDecided v
-       | _ => true))
-  | _ => true
+/-- the address a handler holds prints canonically (`MarshalText` of what `UnmarshalText` read) -/
+def canon0 (m : MsgObj.Struct0) : MsgObj.Struct0 := m.map (canonV id)
+def canon1 (m : MsgObj.Struct1) : MsgObj.Struct1 := m.map (canonV canon0)
+def canon2 (m : MsgObj.Struct2) : MsgObj.Struct2 := m.map (canonV canon1)
 
 def sortedKeys : List Str → Bool
   | a :: b :: r => decide (a < b) && sortedKeys (b :: r)
   | _ => true
 
-/-- member names exact and distinct at every level (strictly increasing, no upper case except the three of
+/-- member names exact and distinct at every level (strictly increasing, ASCII without upper case except the three of
     net.UDPAddr): there the model's VALUE of the message (`fromObj2`, exact lookup) is claimed as well -/
 partial def plainTree : MsgObj.J → Bool
   | .arr l => l.all plainTree
   | .obj ms => sortedKeys (ms.map (·.1)) && ms.all (fun kv =>
-      (kv.1 == MsgObj.kIP || kv.1 == MsgObj.kPort || kv.1 == MsgObj.kZone || kv.1.all (fun b => !(decide (65 ≤ b) && decide (b ≤ 90))))
+      (kv.1 == MsgObj.kIP || kv.1 == MsgObj.kPort || kv.1 == MsgObj.kZone || kv.1.all (fun b => decide (b < 128) && !(decide (65 ≤ b) && decide (b ≤ 90))))
       && plainTree kv.2)
   | _ => true
 
@@ -228,7 +216,7 @@ def parseCalls (w : String) : Option (List ImplCall) :=
 
 /-- `H<typeByte>:<id>,…` ↦ RegisterHandler ops -/
 def parseHandlers (w : String) : Option (List Dispatcher.Op) :=
-  if w = "H-" then some [] else
+  if w = "H-" || w = "A-" then some [] else
   (splitS (dropS w 1) ',').mapM (fun e =>
     match e.splitOn ":" with
     | [t, i] =>
@@ -238,7 +226,7 @@ def parseHandlers (w : String) : Option (List Dispatcher.Op) :=
     | _ => none)
 
 def mkOracle (tbl : List (Str × Option MsgObj.J)) : Dispatcher.Oracle :=
-  ⟨fun b => (tbl.lookup b).join, ipOkSimple⟩
+  ⟨fun b => (tbl.lookup b).join, IPText.ok⟩
 
 /-- bytes consumed at the moment of each handler call (engine-level recomputation, same `readStep`) -/
 partial def callOffsets (o : Dispatcher.Oracle) (hs : List (String × Nat)) (df : Option Nat) (inp : Str) (base : Nat)
@@ -258,7 +246,7 @@ def valueOk (o : Dispatcher.Oracle) (sname : String) (body : Str) (v : String) :
   | some j =>
     if !plainTree j then true else
     match parseTreeAll v with
-    | some vj => MsgObj.fromObj2 C17.schemaGo sname vj == MsgObj.fromObj2 C17.schema sname j
+    | some vj => MsgObj.fromObj2 C17.schemaGo sname vj == canon2 (MsgObj.fromObj2 C17.schema sname j)
     | none => false
   | none => false
 
@@ -273,8 +261,6 @@ def dispStep (tok : List String) (impl : String) : Verdict :=
         match parseTreeTable tw, parseCalls cw with
         | some tbl, some calls =>
           if !(bodiesCovered tbl stream) then .skip "a body the harness' splitter did not see" else
-          if !(tbl.all (fun e => match e.2 with | some j => treeInDomain j | none => true)) then
-            .skip "member name / number / IP text outside the modelled domain" else
           let o := mkOracle tbl
           let dflt : List Dispatcher.Op := match dspec.toNat? with | some i => [.registerDefault i] | none => []
           let sends : List Dispatcher.Op := (List.range nsend).map (fun i => .send (pingFrame (i + 1)) true)
@@ -290,8 +276,24 @@ def dispStep (tok : List String) (impl : String) : Verdict :=
           let implS := dropS sw 1
           let sOk := if d1.done then ((List.range (d1.accepted.length + 1)).any (fun k => hexOf (d1.accepted.take k).flatten == implS)) else hexOf full == implS
           let mS := if sOk then implS else hexOf full
+          -- handlers wrapped in msg.AsyncHandler: the calls are a multiset; every delivery of the model must find
+          -- a call of its own (same func, same struct, the model's value), the strict ones (plain bodies) first
+          let async := startsS hspec "A"
+          let strict (x : Dispatcher.Delivery) : Bool := match o.parse x.body with | some j => plainTree j | none => true
+          let matchAll : Option (List ImplCall) :=
+            ((d1.log.filter strict) ++ (d1.log.filter (fun x => !strict x))).foldl (fun acc x =>
+              match acc with
+              | none => none
+              | some rest =>
+                match rest.findIdx? (fun c => c.id == x.handler && c.sname == x.sname && valueOk o x.sname x.body c.val) with
+                | some i => some (rest.eraseIdx i)
+                | none => none) (some calls)
+          let asyncOk := match matchAll with | some [] => true | _ => false
           -- per call: handler, struct, offset from the model; the value echoed when it is the model's
-          let mcalls := (d1.log.zip offs).zipIdx.map (fun ((x, off), k) =>
+          let mcalls := if async then
+              (if asyncOk then calls.map (fun c => s!"{c.id}:{c.sname}@{c.off}:{c.val}")
+               else "ASYNC-CALLS-ARE-NOT-THE-DELIVERIES" :: d1.log.map (fun x => s!"{x.handler}:{x.sname}@0:?"))
+            else (d1.log.zip offs).zipIdx.map (fun ((x, off), k) =>
             let iv := match calls[k]? with | some c => c.val | none => ""
             let vOk := valueOk o x.sname x.body iv
             s!"{x.handler}:{x.sname}@{off}:" ++ (if vOk then iv else "VALUE-MISMATCH"))
@@ -304,10 +306,14 @@ def dispStep (tok : List String) (impl : String) : Verdict :=
             | none => false      -- stuck: neither Done nor a further Read
             | some ioff =>
               (implState == "done" || implState == "alive")
-              && C17.dispHoldsOn C17.env o d0.handlers d0.dflt stream
-                   ⟨calls.map (fun c => (c.id, c.sname)), implState == "done", ioff⟩
-              && calls.map (·.off) == offs
-              && (d1.log.zip calls).all (fun (x, c) => valueOk o x.sname x.body c.val)
+              && (if async then
+                    C17.dispHoldsOnAsync C17.env o d0.handlers d0.dflt stream
+                      ⟨calls.map (fun c => (c.id, c.sname)), implState == "done", ioff⟩ && asyncOk
+                  else
+                    C17.dispHoldsOn C17.env o d0.handlers d0.dflt stream
+                      ⟨calls.map (fun c => (c.id, c.sname)), implState == "done", ioff⟩
+                    && calls.map (·.off) == offs
+                    && (d1.log.zip calls).all (fun (x, c) => valueOk o x.sname x.body c.val))
               && afterw == mafter && sOk
           verdictOf model impl (some prop)
         | _, _ => .bad "disp result"
@@ -329,18 +335,20 @@ def sessStep (tok : List String) (impl : String) : Verdict :=
         match parseTreeTable tw with
         | some tbl =>
           if !(bodiesCovered tbl (pre ++ post)) then .skip "a body the harness' splitter did not see" else
-          if !(tbl.all (fun e => match e.2 with | some j => treeInDomain j | none => true)) then
-            .skip "member name / number / IP text outside the modelled domain" else
           let o := mkOracle tbl
           let d0 : Dispatcher.Disp := { handlers := serverHandlers }
           let d1 := Dispatcher.step C17.env o d0 (.recv pre)
           if d1.done || !d1.buf.isEmpty then .skip "pre part not made of whole accepted frames" else
           let d2 := Dispatcher.step C17.env o d1 (.recv post)
-          if d2.log.any (fun x => x.handler != 2) then .skip "handler with session effects (proxy / nat hole)" else
-          let nPost := d2.log.length - d1.log.length
-          if d2.done && nPost > 0 then .skip "replies race with the close" else
-          let pongs (n : Nat) := ",".intercalate (List.replicate n "Pong")
-          let model := s!"{tw} pre={pongs d1.log.length} post={pongs nPost} {if d2.done then "closed" else "open"} alive"
+          -- server/control.go: Ping and NewProxy are handled synchronously on the read loop and answer with exactly
+          -- one Pong / NewProxyResp each (whatever the proxy layer makes of the request); CloseProxy and
+          -- NatHoleReport answer nothing; the nat-hole exchange (visitor / client) answers after timeouts of its own
+          if d2.log.any (fun x => x.handler == 3 || x.handler == 4) then .skip "nat-hole exchange (C20)" else
+          let replies (l : List Dispatcher.Delivery) : List String := l.filterMap (fun x =>
+            if x.handler == 2 then some "Pong" else if x.handler == 1 then some "NewProxyResp" else none)
+          let postLog := d2.log.drop d1.log.length
+          if d2.done && !(replies postLog).isEmpty then .skip "replies race with the close" else
+          let model := s!"{tw} pre={",".intercalate (replies d1.log)} post={",".intercalate (replies postLog)} {if d2.done then "closed" else "open"} alive"
           let prop := (" ".intercalate restw) == (" ".intercalate ((words model).drop 1))
           verdictOf model impl (some prop)
         | none => .bad "sess result"
@@ -370,8 +378,6 @@ def nhStep (tok : List String) (impl : String) : Verdict :=
         match unhx (dropS pw 1), parseTreeTable tw with
         | some plain, some tbl =>
           if !(bodiesCovered tbl plain) then .skip "a body the harness' splitter did not see" else
-          if !(tbl.all (fun e => match e.2 with | some j => treeInDomain j | none => true)) then
-            .skip "member name / number / IP text outside the modelled domain" else
           let o := mkOracle tbl
           match Dispatcher.intoStep C17.env o sname plain with
           | .ok body _ _ =>
@@ -446,6 +452,93 @@ def laneStepV (tok : List String) (impl : String) : Verdict :=
     let model := " ".intercalate (laneReplay {} toks [])
     let ws := words impl
     verdictOf model impl (some (ws.length == toks.length && laneProp toks ws && impl == model))
+
+
+/-! ### `batch`: every decode entry point, results retained over a whole batch (Props/C17Batch.lean) -/
+
+def chunk7 : List String → Option (List (List String))
+  | [] => some []
+  | a :: b :: c :: d :: e :: f :: g :: r => (chunk7 r).map (fun l => [a, b, c, d, e, f, g] :: l)
+  | _ => none
+
+/-- `p<hex>` -/
+def parsePayload (w : String) : Option Str :=
+  match w.toList with
+  | 'p' :: h => unhexAux h
+  | _ => none
+
+/-- the JSON text `json.Marshal(&UDPPacket{Content: c, …})` starts with: `{"c":"<c>"` followed by `,` or `}`;
+    an empty content is omitted (omitempty).  base64 text needs no JSON escaping. -/
+def udpBodyHasContent (body c : Str) : Bool :=
+  let pre : Str := [123, 34, 99, 34, 58, 34]       -- {"c":"
+  if c.isEmpty then !(pre.isPrefixOf body) else
+  (pre ++ c ++ [34]).isPrefixOf body &&
+    (match body.drop (pre.length + c.length + 1) with
+     | b :: _ => b == 44 || b == 125
+     | [] => false)
+
+/-- one item of a batch: the words echoed when the clause holds, the model's view otherwise -/
+def batchItem (entry : String) (ws : List String) : Option (List String × Bool) :=
+  match ws with
+  | [tw, bw, ow, vw, iw, lw, rw] =>
+    match (dropS tw 1).toNat?, unhx (dropS bw 1) with
+    | some t, some body =>
+      let lw' := if lw = "L=" then "L" ++ dropS iw 1 else lw
+      let mframe := encode t body
+      let rOk := unhx (dropS rw 1) == some mframe
+      let rEcho := if rOk then rw else "R" ++ hx mframe
+      if entry = "udp" then
+        match parsePayload (dropS vw 1) with
+        | none => none
+        | some payload =>
+          let bOk := t == 117 && udpBodyHasContent body (C17.udpPack payload)
+          let imm := parsePayload (dropS iw 1)
+          let late := parsePayload (dropS lw' 1)
+          let iOk := C17.udpContent (C17.udpPack payload) == imm
+          let ok := match imm, late with
+            | some i, some l => C17.udpItemHolds payload i l
+            | _, _ => false
+          let lOk := ok || !iOk
+          some ([tw, if bOk then bw else "BODY-WITHOUT-THE-PACKED-CONTENT", ow, vw,
+                 if iOk then iw else "I" ++ vw.drop 1, if lOk then lw else "LCHANGED-AFTER-LATER-DECODES", rEcho],
+                bOk && ok && rOk)
+      else
+        match C17.structOf t, parseTreeAll (dropS vw 1) with
+        | some sname, some vj =>
+          let m := MsgObj.fromObj2 C17.schemaGo sname vj
+          -- the value dump and the body written for it denote the same object (ties V to B; text level trusted)
+          let oOk := renderTree (MsgObj.toObj2 C17.schema sname m) == dropS ow 1
+          let imm := (parseTreeAll (dropS iw 1)).map (MsgObj.fromObj2 C17.schemaGo sname)
+          let late := (parseTreeAll (dropS lw' 1)).map (MsgObj.fromObj2 C17.schemaGo sname)
+          let iOk := imm == some (MsgObj.norm2 C17.schema sname m)
+          let ok := match imm, late with
+            | some i, some l => C17.itemHolds ⟨t, sname, body, m, i, l, (unhx (dropS rw 1)).getD []⟩
+            | _, _ => false
+          let lOk := ok || !iOk || !rOk
+          some ([tw, bw, if oOk then ow else "OBJECT-LEVEL-MISMATCH", vw,
+                 if iOk then iw else "IVALUE-MISMATCH", if lOk then lw else "LCHANGED-AFTER-LATER-DECODES", rEcho],
+                oOk && ok && rOk)
+        | _, _ => none
+    | _, _ => none
+  | _ => none
+
+def batchStep (tok : List String) (impl : String) : Verdict :=
+  match tok with
+  | [entry, _mode, _seed, k] =>
+    if isPanic impl then .diff "no-panic" (some false) else
+    if impl = "werr" || impl = "stuck" || impl = "badop" then .diff "batch-decoded" (some false) else
+    match chunk7 (words impl), k.toNat? with
+    | some items, some k =>
+      if items.any (fun ws => match ws with
+          | [_, bw, _, _, _, _, _] => (bw.length - 2) / 2 > maxLen
+          | _ => false) then .skip "a body above the bound (rt's business)" else
+      match items.mapM (batchItem entry) with
+      | none => .bad "batch item"
+      | some rs =>
+        let model := " ".intercalate (rs.flatMap (·.1))
+        verdictOf model impl (some (items.length == k && rs.all (·.2)))
+    | _, _ => .bad "batch result"
+  | _ => .bad "batch"
 
 def codecStep (st : Unit) (tok : List String) (impl : String) : Unit × Verdict :=
   match tok with
@@ -550,6 +643,7 @@ def codecStep (st : Unit) (tok : List String) (impl : String) : Unit × Verdict 
   | "sess" :: rest => (st, sessStep rest impl)
   | "nh" :: rest => (st, nhStep rest impl)
   | "lane" :: rest => (st, laneStepV rest impl)
+  | "batch" :: rest => (st, batchStep rest impl)
   | ["first", b] =>
     match unhx b with
     | none => (st, .bad "first")
